@@ -27,11 +27,18 @@ type capLogger struct {
 	lines []string
 }
 
+// LogHook, when set, is called synchronously with every info/warn/error line the library logs: a
+// harness can act exactly at the point of the library's execution where that line is written.
+var LogHook func(line string)
+
 func (c *capLogger) add(level, m string, a ...interface{}) {
 	if level == "trace" || level == "debug" {
 		return
 	}
 	s := level + ": " + fmt.Sprintf(m, a...)
+	if h := LogHook; h != nil {
+		h(s)
+	}
 	c.mu.Lock()
 	if len(c.lines) > 400 {
 		c.lines = c.lines[200:]
